@@ -1,7 +1,7 @@
 SPECIFICATION TraceSpec
 CONSTANTS
   NSlot = 6
-  NMock = 3
+  NMock = 4
   NSeq = 3
   NObj = 3
   NMon = 4
